@@ -10,7 +10,7 @@
 From EoNV Require Import Prelude Samp Graph ListDict ListDictP Gillespie KldP GillespieInv SampP Simple SimpleP
   SimpleExecS SimpleExec SimpleExecLog SimpleExecTop SimpleExecChk SimpleExecC10 SimpleExecFuel SimpleExecFlag SimpleExecC10b.
 From EoNV Require Import Investigation InvestigationP.
-From EoNV Require Complex ComplexP ComplexExec ComplexExecChk ComplexExecC10.
+From EoNV Require Complex ComplexP ComplexExec ComplexExecChk ComplexExecC10 ComplexExecFlag.
 
 Theorem C10gen_summary_equals_arrays :
   forall g (Hg : wfg2 g) ic rstat tmin tmax sortable spont induced fuel ds out tr,
@@ -119,6 +119,22 @@ Theorem C10gen_complex_summary_equals_arrays :
        consistent_b (mkInv (gnodes g) (fd_hist fd) None (Some rstats)) (so_rows (fst out)) tmin (ComplexExecChk.all_moves rstats) = true).
 Proof. exact ComplexExecC10.complex_summary_equals_arrays. Qed.
 
+(* ... and return_full_data does not influence the run of Gillespie_complex_contagion either: for
+   EVERY user model (no hypothesis) and draw script both modes make the same calls to the random
+   source, and when both return, the same rows and the same calls to the user's functions *)
+Theorem C10gen_complex_both_modes_consume_the_same_draws :
+  forall g rate choice infl rstats tmin tmax (ic : node -> option N) fuel ds,
+  let r1 := exec (Complex.complex g rate choice infl rstats tmin tmax false ic fuel) ds [] in
+  let r2 := exec (Complex.complex g rate choice infl rstats tmin tmax true ic fuel) ds [] in
+  snd r1 = snd r2 /\
+  match fst r1, fst r2 with
+  | Ok o1, Ok o2 => so_rows (fst o1) = so_rows (fst o2) /\ snd o1 = snd o2 /\ so_full (fst o1) = None /\ so_full (fst o2) <> None
+  | Ok o1, Err e => e = KeyErr \/ e = IndexErr
+  | Err e1, Err e2 => e1 = e2
+  | Err _, Ok _ => False
+  end.
+Proof. exact ComplexExecFlag.complex_flag_independent. Qed.
+
 (* non-vacuity: the example run of Props/C03.v (return_statuses = both statuses, covering);
    summary() of its histories is its rows, and consistent_b rejects the histories against rows
    with one count changed *)
@@ -150,4 +166,5 @@ Print Assumptions C10gen_rows_are_running_counts_in_both_modes.
 Print Assumptions C10gen_rows_checker_sound.
 Print Assumptions C10gen_histories_make_spec_moves.
 Print Assumptions C10gen_complex_summary_equals_arrays.
+Print Assumptions C10gen_complex_both_modes_consume_the_same_draws.
 Print Assumptions C10gen_example.
